@@ -83,6 +83,7 @@ fn main() {
     let same = StateMetadataDocument::unpack(&packed).map_err(|e| e.to_string())?.into_iota_document(&a).map_err(|e| e.to_string())?;
     if same.core_document() != d.core_document() { return Err("same-DID round trip changes the document".into()); }
     if same.metadata.to_json().unwrap() != d.metadata.to_json().unwrap() { return Err(format!("same-DID round trip changes the metadata: {} -> {}", d.metadata.to_json().unwrap(), same.metadata.to_json().unwrap())); }
+    if same.metadata != d.metadata { return Err(format!("same-DID round trip changes the metadata value: deactivated {:?} -> {:?}", d.metadata.deactivated, same.metadata.deactivated)); }
     let _ = IotaDocumentMetadata::default();
     let moved = StateMetadataDocument::unpack(&packed).map_err(|e| e.to_string())?.into_iota_document(&b).map_err(|e| e.to_string())?;
     let text = moved.core_document().to_json().unwrap();
